@@ -231,6 +231,9 @@ def clamp_rows(check, repo, ids):
 
 def run(check, ctx):
     repo = ctx.repo
+    # generate(): the private values are drawn from the documented intervals (shared with C18)
+    from .c18_extra import elgamal_consumers
+    elgamal_consumers(check, repo)
     ids = curve_ids(repo)
     # on-curve test in C: the two sides of the curve equation are compared in full
     from .. import crules
